@@ -8,6 +8,7 @@ CONSTANTS
  T = 1
  Strict = TRUE
  Mode = "byz"
- DevC = {2}
+ HonP <- PolysConst
+ DevP <- PolysConst
 INVARIANTS Holds Interp
 CHECK_DEADLOCK FALSE
